@@ -131,3 +131,40 @@ func ruleDataMatrixMerge(c *Ctx) {
 		c.Check(R, "datamatrix.Merge/writes", fn.Pos(), false, fmt.Sprintf("%d write sites", len(want)), fmt.Sprint(len(got)))
 	}
 }
+
+// reindexLoop expresses the variable of the counting loop at hdr through the index that is
+// written in its body: q = storeIdx = ±x + rest. Afterwards Norm of the loop variable yields a
+// polynomial in the role "q". Returns q's first value, its step per iteration and the loop's
+// continue condition in terms of q. This makes a rule independent of whether a loop runs over
+// i, over k-1-i or over an offset index.
+func reindexLoop(n *Normer, hdr *ssa.BasicBlock, storeIdx ssa.Value) (first Poly, step Poly, cond *Cond, ok bool) {
+	xv, init, st, okS := loopShape(n, hdr)
+	if !okS {
+		return nil, nil, nil, false
+	}
+	const X = "\x01x"
+	n.Bind[xv] = X
+	idx := n.Norm(storeIdx)
+	delete(n.Bind, xv)
+	a := idx[X]
+	if a != 1 && a != -1 {
+		return nil, nil, nil, false
+	}
+	rest := Poly{}
+	for m, cf := range idx {
+		if m == X {
+			continue
+		}
+		if strings.Contains(m, X) {
+			return nil, nil, nil, false
+		}
+		rest[m] = cf
+	}
+	// x = a*(q - rest)
+	xInQ := pScale(pAdd(pAtom("q"), rest, -1), a)
+	n.env = append(n.env, map[ssa.Value]Poly{xv: xInQ})
+	first = pAdd(pScale(init, a), rest, 1)
+	step = pScale(st, a)
+	cond = n.EdgeCond(hdr, hdr.Succs[0])
+	return first, step, cond, true
+}
